@@ -22,7 +22,7 @@ CLAIMED = {
 }
 
 CLAIMED.update({
-    "C18": ("fault_enumeration", "3 C18", TECH + "SIGINT delivered at every (thorough) / a stratified sample (quick) of scheduler steps of a base run, plus process exit as a crash point, plus write-level faults from the preload shim (TMPDIR full after N bytes = ENOSPC, stdout reader gone after N bytes = EPIPE, alone and with a SIGINT); oracle = private TMPDIR empty after exit, exit within a step bound after the last signal, no crash/deadlock, after EPIPE stdout is a prefix of the fault-free output",
+    "C18": ("fault_enumeration", "3 C18", TECH + "SIGINT delivered at every (thorough) / a stratified sample (quick) of scheduler steps of a base run, plus process exit as a crash point, plus write-level faults from the preload shim (TMPDIR full after N bytes = ENOSPC, stdout reader gone after N bytes = EPIPE, reads failing after N bytes = EIO, alone and with a SIGINT); oracle = private TMPDIR empty after exit, exit within a step bound after the last signal, no crash/deadlock, after EPIPE stdout is a prefix of the fault-free output",
             "Crash-point enumeration over the simulated signal thread: the real handler closure, the real temp-file code and "
             "the real coordinator run under the baton scheduler; leaks are classified by life-cycle position."),
     "C17": ("exploration", "3 C17", TECH + "same log generator at n, 2n, 4n blocks under adversarial schedules (starved coordinator / worker); --summary high-water marks must be flat and under a computed bound",
